@@ -10,7 +10,9 @@ open SeqEnc DecM
 /-- the domain of one attribute: what the C++ containers guarantee (`uint8_t` component count,
     `uint32_t` unique id, `int` value counts, byte buffers), a named attribute type and a valid
     data type (the decoder rejects others), structural validity (C03), float32 patterns as explicit
-    quantization parameters, and the float oracle hypothesis `octaRowOK` for normals -/
+    quantization parameters, and for normals the hypothesis that the octahedral coordinates computed by
+    the float code are canonical grid points (`octaEntryOK`; implied by the float oracle hypothesis
+    `octaRowOK`) -/
 structure AttOK (a : Attribute) (o : AttOpts) (n : Nat) : Prop where
   valid : a.valid n = true
   bytes : IsBytes a.values
@@ -21,7 +23,7 @@ structure AttOK (a : Attribute) (o : AttOpts) (n : Nat) : Prop where
   size : n * a.numComponents < 2 ^ 31
   explicit : ∀ org r, o.explicitQuant = some (org, r) → r < 2 ^ 32 ∧ ∀ m ∈ org, m < 2 ^ 32
   normals : encoderType a o = 3 → ∀ t, Octa.init o.quantBits.toNat = some t →
-    ∀ r ∈ pointRows a n, octaRowOK t r = true
+    ∀ r ∈ pointRows a n, octaEntryOK t (octaRow t r) = true
 
 theorem encoderType_cases (a : Attribute) (o : AttOpts) :
     (encoderType a o = 0) ∨
